@@ -133,7 +133,7 @@ fn pipeops_case(cx: &mut Ctx, rt: usize, preset: u64, seed: u64, ops: &[i64]) {
 }
 
 // ---------------------------------------------------------------------------------------------
-// cell: BatchCollector over other element types and batch limits (unit, u8, String; 0, 1, usize::MAX), is_empty
+// cell: BatchCollector over other element types and batch limits (unit, u8, String; 0, 1, usize::MAX), is_empty (M+S: kind 4 cases)
 // ---------------------------------------------------------------------------------------------
 
 /// `rec`: the batches in the order in which they came out, each behind a -1 marker ... then -2 and what the final flush returned (items encoded by `enc`)
